@@ -82,6 +82,13 @@ func (E *Engine) havocKeys(st *State, ws *writeSet, resolve func(ssa.Value) (*Te
 		st.heap[allocKey] = nw
 	}
 	clockPost := E.clock(st)
+	preserve := map[string]bool{}
+	oldState := st.clone()
+	defer func() {
+		if len(preserve) > 0 {
+			E.preserveUnescaped(st, oldState, preserve)
+		}
+	}()
 	for _, k := range ks {
 		srt, ok := E.heapSorts[k]
 		if !ok {
@@ -98,6 +105,9 @@ func (E *Engine) havocKeys(st *State, ws *writeSet, resolve func(ssa.Value) (*Te
 			E.addFact(st, c)
 		}
 		if kw.any || !srt.IsArray() {
+			if kw.any {
+				preserve[k] = true
+			}
 			continue
 		}
 		if ks0, _ := srt.ArrayParts(); ks0 != SRef {
@@ -374,7 +384,7 @@ func (E *Engine) callWrites(fn *ssa.Function, cc *ssa.CallCommon, site ssa.Instr
 		return
 	case *ssa.Parameter:
 		// a function-typed parameter of the target of a //verif:pure-func-params contract
-		if E.harness != nil && E.harness.PureFuncParams && E.harness.Target != nil && originOf(fn) == originOf(E.harness.Target) {
+		if h := E.P.contracts[originOf(fn)]; h != nil && h.PureFuncParams {
 			return
 		}
 	}
